@@ -1255,3 +1255,245 @@ theorem history_rot (P : Nat → Prob ℝ) (T : Nat → GField ℝ)
 
 end
 end SrModel.Thermal
+
+namespace SrModel.Thermal
+open Finset
+noncomputable section
+
+/-! ### steady mode: maximum principle and uniqueness when a wall anchors the temperature -/
+
+/-- at a real node whose value is the maximum over real nodes and exceeds `B`, every neighbour
+value (ghosts included, through their rows) is at most the node's value -/
+theorem nbr_bounds (P : Prob ℝ) (T : GField ℝ) (B : ℝ) (hw : P.WeightsNonneg) (hsol : P.Solves T)
+    (hin : P.inner.UpperOK P.dr (fun j k => P.kk 1 j k) B P.isRealJ P.isRealK)
+    (hout : P.outer.UpperOK P.dr (fun j k => P.kk P.N j k) B P.isRealJ P.isRealK)
+    (im jm km : Nat) (hi : P.isRealI im = true) (hj : P.isRealJ jm = true) (hk : P.isRealK km = true)
+    (hmax : ∀ i j k, P.isRealI i = true → P.isRealJ j = true → P.isRealK k = true → T i j k ≤ T im jm km)
+    (hB : B < T im jm km) :
+    T (im-1) jm km ≤ T im jm km ∧ T (im+1) jm km ≤ T im jm km ∧
+    (P.wtm im jm km = 0 ∨ (0 ≤ P.wtm im jm km ∧ T im (jm-1) km ≤ T im jm km)) ∧
+    (P.wtp im jm km = 0 ∨ (0 ≤ P.wtp im jm km ∧ T im (jm+1) km ≤ T im jm km)) ∧
+    (P.wzm im jm km = 0 ∨ (0 ≤ P.wzm im jm km ∧ T im jm (km-1) ≤ T im jm km)) ∧
+    (P.wzp im jm km = 0 ∨ (0 ≤ P.wzp im jm km ∧ T im jm (km+1) ≤ T im jm km)) := by
+  obtain ⟨_, hinner, houter, hper, hax⟩ := hsol
+  have hiR : 1 ≤ im ∧ im ≤ P.N := by simpa [Prob.isRealI] using hi
+  obtain ⟨_, _, w3, w4, w5, w6⟩ := hw im jm km hi hj hk
+  refine ⟨?_, ?_, ?_, ?_, ?_, ?_⟩
+  · by_cases h1 : im = 1
+    · subst h1; exact inner_nbr_le P T B jm km hj hk (hinner jm km hj hk) hin hB
+    · exact hmax _ _ _ (by simp [Prob.isRealI]; omega) hj hk
+  · by_cases h1 : im = P.N
+    · subst h1; exact outer_nbr_le P T B jm km hj hk (houter jm km hj hk) hout hB
+    · exact hmax _ _ _ (by simp [Prob.isRealI]; omega) hj hk
+  · by_cases h2 : P.ndim ≥ 2
+    · right; refine ⟨w3, ?_⟩
+      have hjR : 1 ≤ jm ∧ jm ≤ P.Nt := by simpa [Prob.isRealJ, h2] using hj
+      by_cases h1 : jm = 1
+      · subst h1
+        have := (hper h2 im km hi hk).1
+        have hle := hmax im P.Nt km hi (by simp [Prob.isRealJ, h2]; omega) hk
+        simp only [Nat.sub_self]; linarith
+      · exact hmax _ _ _ hi (by simp [Prob.isRealJ, h2]; omega) hk
+    · left; simp [Prob.wtm, h2]
+  · by_cases h2 : P.ndim ≥ 2
+    · right; refine ⟨w4, ?_⟩
+      have hjR : 1 ≤ jm ∧ jm ≤ P.Nt := by simpa [Prob.isRealJ, h2] using hj
+      by_cases h1 : jm = P.Nt
+      · subst h1
+        have := (hper h2 im km hi hk).2
+        have hle := hmax im 1 km hi (by simp [Prob.isRealJ, h2]; omega) hk
+        linarith
+      · exact hmax _ _ _ hi (by simp [Prob.isRealJ, h2]; omega) hk
+    · left; simp [Prob.wtp, h2]
+  · by_cases h3 : P.ndim ≥ 3
+    · right; refine ⟨w5, ?_⟩
+      have hkR : 1 ≤ km ∧ km ≤ P.Nz := by simpa [Prob.isRealK, h3] using hk
+      by_cases h1 : km = 1
+      · subst h1
+        have := (hax h3 im jm hi hj).1
+        simp only [Nat.sub_self]; linarith
+      · exact hmax _ _ _ hi hj (by simp [Prob.isRealK, h3]; omega)
+    · left; simp [Prob.wzm, h3]
+  · by_cases h3 : P.ndim ≥ 3
+    · right; refine ⟨w6, ?_⟩
+      have hkR : 1 ≤ km ∧ km ≤ P.Nz := by simpa [Prob.isRealK, h3] using hk
+      by_cases h1 : km = P.Nz
+      · subst h1
+        have := (hax h3 im jm hi hj).2
+        linarith
+      · exact hmax _ _ _ hi hj (by simp [Prob.isRealK, h3]; omega)
+    · left; simp [Prob.wzp, h3]
+
+/-- the inner wall pins the temperature: fixed value ≤ `B`, or convection with a strictly positive
+film number to a fluid at most `B` -/
+def Wall.AnchorsBelow (w : Wall ℝ) (dr : ℝ) (kw : Nat → Nat → ℝ) (B : ℝ) : Prop :=
+  match w with
+  | .fix v => ∀ j k, v j k ≤ B
+  | .conv tf h => ∀ j k, 0 < dr * h j k / kw j k ∧ tf j k ≤ B
+  | _ => False
+
+theorem Wall.AnchorsBelow.upperOK {w : Wall ℝ} {dr : ℝ} {kw : Nat → Nat → ℝ} {B : ℝ}
+    (h : w.AnchorsBelow dr kw B) (rj rk : Nat → Bool) : w.UpperOK dr kw B rj rk := by
+  cases w with
+  | ins => exact h.elim
+  | flux q => exact h.elim
+  | fix v => exact fun j k _ _ => h j k
+  | conv tf hh => exact fun j k _ _ => ⟨(h j k).1.le, (h j k).2⟩
+
+/-- **Steady maximum principle (inner wall anchoring).** Steady mode, no source, strictly positive
+radial couplings: every real-node value is at most `B` when the inner wall anchors below `B` and
+the outer wall does not heat (`UpperOK`). -/
+theorem steady_max_upper (P : Prob ℝ) (T : GField ℝ) (B : ℝ)
+    (hs : P.Sized) (hst : P.steady = true) (hw : P.WeightsNonneg)
+    (hwr : ∀ i j k, P.isRealI i = true → P.isRealJ j = true → P.isRealK k = true → 0 < P.wrm i j k)
+    (hsol : P.Solves T)
+    (hsrc : ∀ i j k, P.qc i j k * P.src i j k = 0)
+    (hin : P.inner.AnchorsBelow P.dr (fun j k => P.kk 1 j k) B)
+    (hout : P.outer.UpperOK P.dr (fun j k => P.kk P.N j k) B P.isRealJ P.isRealK) :
+    ∀ i j k, P.isRealI i = true → P.isRealJ j = true → P.isRealK k = true → T i j k ≤ B := by
+  have hinU := hin.upperOK P.isRealJ P.isRealK
+  obtain ⟨⟨im, jm, km⟩, hmem, hmaxi⟩ :=
+    Finset.exists_max_image P.nodes (fun p => T p.1 p.2.1 p.2.2) (nodes_nonempty P hs)
+  have hmax : ∀ i j k, P.isRealI i = true → P.isRealJ j = true → P.isRealK k = true →
+      T i j k ≤ T im jm km := fun i j k a b c => hmaxi (i, j, k) ((mem_nodes P i j k).2 ⟨a, b, c⟩)
+  obtain ⟨hi, hj, hk⟩ := (mem_nodes P im jm km).1 hmem
+  by_contra hcon
+  push_neg at hcon
+  obtain ⟨i0, j0, k0, hi0, hj0, hk0, hlt⟩ := hcon
+  have hB : B < T im jm km := lt_of_lt_of_le hlt (hmax i0 j0 k0 hi0 hj0 hk0)
+  have hreal := hsol.1
+  -- at any real node of the ray (·, jm, km) carrying the maximum, the inward neighbour carries it too
+  have step : ∀ i, P.isRealI i = true → T i jm km = T im jm km → T (i-1) jm km = T im jm km := by
+    intro i hiI hval
+    have hmax' : ∀ a b c, P.isRealI a = true → P.isRealJ b = true → P.isRealK c = true →
+        T a b c ≤ T i jm km := by intro a b c x y z; rw [hval]; exact hmax a b c x y z
+    obtain ⟨n1, n2, n3, n4, n5, n6⟩ := nbr_bounds P T B hw hsol hinU hout i jm km hiI hj hk hmax'
+      (by rw [hval]; exact hB)
+    obtain ⟨w1, w2, _, _, _, _⟩ := hw i jm km hiI hj hk
+    have t1 := term_nonpos _ _ _ (Or.inr ⟨w1, n1⟩ : P.wrm i jm km = 0 ∨ _)
+    have t2 := term_nonpos _ _ _ (Or.inr ⟨w2, n2⟩ : P.wrp i jm km = 0 ∨ _)
+    have t3 := term_nonpos _ _ _ n3
+    have t4 := term_nonpos _ _ _ n4
+    have t5 := term_nonpos _ _ _ n5
+    have t6 := term_nonpos _ _ _ n6
+    have hrow := hreal i jm km hiI hj hk
+    unfold Prob.lhsReal Prob.rhsReal at hrow
+    rw [hst] at hrow
+    simp only [if_true, hsrc] at hrow
+    unfold Prob.applyA at hrow
+    have h0 : P.wrm i jm km * (T (i-1) jm km - T i jm km) = 0 := by linarith
+    have hpos := hwr i jm km hiI hj hk
+    have : T (i-1) jm km - T i jm km = 0 := by
+      rcases mul_eq_zero.1 h0 with h | h
+      · exact absurd h hpos.ne'
+      · exact h
+    linarith
+  -- walk inwards from im to the ghost node 0
+  have hiR : 1 ≤ im ∧ im ≤ P.N := by simpa [Prob.isRealI] using hi
+  have walk : ∀ d, d ≤ im → T (im - d) jm km = T im jm km := by
+    intro d
+    induction d with
+    | zero => intro _; rfl
+    | succ n ih =>
+      intro hn
+      have hprev := ih (by omega)
+      have hI : P.isRealI (im - n) = true := by simp [Prob.isRealI]; omega
+      have := step (im - n) hI hprev
+      have e : im - n - 1 = im - (n + 1) := by omega
+      rw [e] at this; exact this
+  have h1 := walk (im - 1) (by omega)
+  have h0 := walk im (le_refl _)
+  have e1 : im - (im - 1) = 1 := by omega
+  rw [e1] at h1
+  rw [Nat.sub_self] at h0
+  -- inner wall row contradicts T 0 = T 1 = max > B
+  have hrow := hsol.2.1 jm km hj hk
+  unfold Prob.innerRes at hrow
+  unfold Wall.AnchorsBelow at hin
+  cases hwall : P.inner with
+  | ins => rw [hwall] at hin; exact hin
+  | flux q => rw [hwall] at hin; exact hin
+  | fix v =>
+    rw [hwall] at hin hrow; simp only at hin hrow
+    have := hin jm km; linarith
+  | conv tf h =>
+    rw [hwall] at hin hrow; simp only at hin hrow
+    obtain ⟨hb, ht⟩ := hin jm km
+    have e : P.dr * h jm km * (T 1 jm km - tf jm km) / P.kk 1 jm km
+        = (P.dr * h jm km / P.kk 1 jm km) * (T 1 jm km - tf jm km) := by ring
+    rw [e] at hrow
+    have hp : 0 < (P.dr * h jm km / P.kk 1 jm km) * (T 1 jm km - tf jm km) :=
+      mul_pos hb (by linarith)
+    linarith
+
+end
+end SrModel.Thermal
+
+namespace SrModel.Thermal
+noncomputable section
+
+/-- **Uniqueness of the steady solution** when the inner wall prescribes a temperature or exchanges
+heat with a fluid through a strictly positive film number (strictly positive radial couplings). -/
+theorem steady_unique (P : Prob ℝ) (T T' : GField ℝ)
+    (hs : P.Sized) (hst : P.steady = true) (hw : P.WeightsNonneg)
+    (hwr : ∀ i j k, P.isRealI i = true → P.isRealJ j = true → P.isRealK k = true → 0 < P.wrm i j k)
+    (hanchor : (∃ v, P.inner = .fix v) ∨
+      (∃ tf h, P.inner = .conv tf h ∧ ∀ j k, 0 < P.dr * h j k / P.kk 1 j k))
+    (hconv_out : ∀ tf h, P.outer = .conv tf h → ∀ j k, 0 ≤ P.dr * h j k / P.kk P.N j k)
+    (h1 : P.Solves T) (h2 : P.Solves T') :
+    ∀ i j k, P.isRealI i = true → P.isRealJ j = true → P.isRealK k = true → T i j k = T' i j k := by
+  have key : ∀ (a b : ℝ) (U V : GField ℝ), a + b = 0 → P.Solves U → P.Solves V →
+      ∀ i j k, P.isRealI i = true → P.isRealJ j = true → P.isRealK k = true →
+        GField.comb a b U V i j k ≤ 0 := by
+    intro a b U V hab hU hV
+    have hd := solves_comb P P.data P.data a b U V (Wall.same_refl _) (Wall.same_refl _) hU hV
+    set Q := P.withData (Data.comb a b P.data P.data) with hQ
+    have hsrc : ∀ i j k, Q.qc i j k * Q.src i j k = 0 := by
+      intro i j k
+      have : a * P.src i j k + b * P.src i j k = 0 := by
+        have : (a + b) * P.src i j k = 0 := by rw [hab]; ring
+        linarith [this]
+      simp [hQ, Prob.withData, Data.comb, Prob.data, this]
+    have hin : Q.inner.AnchorsBelow Q.dr (fun j k => Q.kk 1 j k) 0 := by
+      show (Wall.comb a b P.inner P.inner).AnchorsBelow P.dr (fun j k => P.kk 1 j k) 0
+      rcases hanchor with ⟨v, hv⟩ | ⟨tf, h, hv, hpos⟩
+      · rw [hv]; simp only [Wall.comb, Wall.AnchorsBelow]
+        intro j k
+        have : (a + b) * v j k = 0 := by rw [hab]; ring
+        linarith [this]
+      · rw [hv]; simp only [Wall.comb, Wall.AnchorsBelow]
+        intro j k
+        refine ⟨hpos j k, ?_⟩
+        have : (a + b) * tf j k = 0 := by rw [hab]; ring
+        linarith [this]
+    have hout : Q.outer.UpperOK Q.dr (fun j k => Q.kk Q.N j k) 0 Q.isRealJ Q.isRealK := by
+      show (Wall.comb a b P.outer P.outer).UpperOK P.dr (fun j k => P.kk P.N j k) 0 _ _
+      cases hwo : P.outer with
+      | ins => simp [Wall.comb, Wall.UpperOK]
+      | fix v =>
+        simp only [Wall.comb, Wall.UpperOK]
+        intro j k _ _
+        have : (a + b) * v j k = 0 := by rw [hab]; ring
+        linarith [this]
+      | flux q =>
+        simp only [Wall.comb, Wall.UpperOK]
+        intro j k _ _
+        have : a * q j k + b * q j k = 0 := by
+          have : (a + b) * q j k = 0 := by rw [hab]; ring
+          linarith [this]
+        rw [this]; simp
+      | conv tf h =>
+        simp only [Wall.comb, Wall.UpperOK]
+        intro j k _ _
+        refine ⟨hconv_out tf h hwo j k, ?_⟩
+        have : (a + b) * tf j k = 0 := by rw [hab]; ring
+        linarith [this]
+    exact steady_max_upper Q (GField.comb a b U V) 0 (hs.withData _) hst hw hwr hd hsrc hin hout
+  intro i j k hi hj hk
+  have a := key 1 (-1) T T' (by ring) h1 h2 i j k hi hj hk
+  have b := key (-1) 1 T T' (by ring) h1 h2 i j k hi hj hk
+  simp only [GField.comb] at a b
+  linarith
+
+end
+end SrModel.Thermal
